@@ -44,6 +44,7 @@ impl<'a> HydratedComponent<'a> {
 pub uninterp spec fn db_ids(db: &ComponentDb) -> Seq<ComponentId>;
 pub uninterp spec fn hydrated<'a>(db: &'a ComponentDb, id: ComponentId) -> HydratedComponent<'a>;
 pub uninterp spec fn policy_of(db: &ComponentDb, id: ComponentId) -> CloningPolicy;
+pub uninterp spec fn derived_from_of(db: &ComponentDb, id: ComponentId) -> Option<ComponentId>;
 pub uninterp spec fn iter_items<'a>(db: &'a ComponentDb) -> Seq<(ComponentId, &'a Component)>;
 /// An iterator as a ghost sequence of what it has yet to yield (rule N21 writes `for` out as `while let Some(..) = it.next()`)
 #[verifier::external_body] #[verifier::accept_recursive_types(T)]
@@ -69,6 +70,8 @@ impl ComponentDb {
     #[verifier::external_body]
     pub fn hydrated_component<'a, 'b: 'a>(&'a self, id: ComponentId, computation_db: &'b ComputationDb) -> (r: HydratedComponent<'a>)
         ensures r == hydrated(self, id) { unimplemented!() }
+    /// API neighbourhood (not called by the unchanged code)
+    #[verifier::external_body] pub fn derived_from(&self, component_id: &ComponentId) -> (r: Option<ComponentId>) ensures r == derived_from_of(self, *component_id) { unimplemented!() }
     #[verifier::external_body]
     pub fn cloning_policy(&self, component_id: ComponentId) -> (r: CloningPolicy) ensures r == policy_of(self, component_id) { unimplemented!() }
 }
@@ -97,16 +100,27 @@ pub fn must_be_cloneable(e: MissingTraitImplementationError, type_: &Type, id: C
 pub fn missing_trait_implementation(e: MissingTraitImplementationError, id: ComponentId, db: &ComponentDb, computation_db: &ComputationDb, diagnostics: &mut DiagnosticSink)
     ensures errors(final(diagnostics)) == errors(old(diagnostics)) + 1 { unimplemented!() }
 
-/// `for x in [a, b, ..]` (array literal by value; rule N21 hands the elements over as a vector): the elements, in order
+/// what `for x in <value>` yields, in order (rule N21 hands every `for` iterable to `verif_into_iter`)
+pub trait VerifIntoIter: Sized { type Item; spec fn verif_items(self) -> Seq<Self::Item>; }
+impl<T> VerifIntoIter for VerifIter<T> { type Item = T; open spec fn verif_items(self) -> Seq<T> { self@ } }
+impl<'a, T> VerifIntoIter for &'a Vec<T> { type Item = &'a T; open spec fn verif_items(self) -> Seq<&'a T> { Seq::new(self@.len(), |i: int| &self@[i]) } }
+impl<'a, T> VerifIntoIter for &'a [T] { type Item = &'a T; open spec fn verif_items(self) -> Seq<&'a T> { Seq::new(self@.len(), |i: int| &self@[i]) } }
+impl<T> VerifIntoIter for Vec<T> { type Item = T; open spec fn verif_items(self) -> Seq<T> { self@ } }
 #[verifier::external_body]
-pub fn verif_array_iter<T>(v: Vec<T>) -> (r: VerifIter<T>) ensures r@ == v@ { unimplemented!() }
-/// `for x in &index_set`: the elements in insertion order (rule N5)
-#[verifier::external_body]
-pub fn verif_iter_set<'a, T>(s: &'a IndexSet<T>) -> (r: VerifIter<&'a T>)
-    ensures r@.len() == s.v@.len(), forall |i: int| 0 <= i < s.v@.len() ==> *(#[trigger] r@[i]) == s.v@[i] { unimplemented!() }
+pub fn verif_into_iter<I: VerifIntoIter>(i: I) -> (r: VerifIter<I::Item>) ensures r@ == i.verif_items() { unimplemented!() }
+impl<'a, T> VerifIntoIter for &'a IndexSet<T> { type Item = &'a T; open spec fn verif_items(self) -> Seq<&'a T> { Seq::new(self.v@.len(), |i: int| &self.v@[i]) } }
 
 // ---- rustdoc_ir::Callable: only the types of its input parameters, in order ----------------------------------------------
-#[verifier::external_body] pub struct Callable { _p: u8 }
+// payload types of the real `Callable` enum (extracted) that this unit never looks into
+#[verifier::external_body] pub struct RustIdentifier { _p: u8 }
+#[verifier::external_body] pub struct GlobalItemId { _p: u8 }
+#[verifier::external_body] pub struct RustdocAbi { _p: u8 }
+#[verifier::external_body] pub struct BTreeMapStringString { _p: u8 }
+#[verifier::external_body] pub struct FreeFunctionPath { _p: u8 }
+#[verifier::external_body] pub struct InherentMethodPath { _p: u8 }
+#[verifier::external_body] pub struct TraitMethodPath { _p: u8 }
+#[verifier::external_body] pub struct StructLiteralPath { _p: u8 }
+#[verifier::external_body] pub struct EnumVariantConstructorPath { _p: u8 }
 pub uninterp spec fn callable_inputs(c: &Callable) -> Seq<&Type>;
 #[verifier::external_body] pub struct CallableInputs<'a> { _p: PhantomData<&'a u8> }
 pub uninterp spec fn ci_seq<'a>(c: &CallableInputs<'a>) -> Seq<&'a Type>;
@@ -121,3 +135,7 @@ impl<'a> CallableInputs<'a> {
     #[verifier::external_body] pub fn enumerate(self) -> (r: VerifIter<(usize, &'a Type)>)
         ensures r@.len() == ci_seq(&self).len(), forall |i: int| 0 <= i < r@.len() ==> (#[trigger] r@[i]).0 == i && r@[i].1 == ci_seq(&self)[i] { unimplemented!() }
 }
+
+/// std: `Box<T>: AsRef<T>` (API neighbourhood)
+pub assume_specification<T: ?Sized, A: core::alloc::Allocator>[<Box<T, A> as AsRef<T>>::as_ref](b: &Box<T, A>) -> (r: &T)
+    ensures r == &**b;
